@@ -80,5 +80,6 @@ Proof.
     try (match goal with H : holds _ _ _ = true |- _ => apply Hh in H; lia end);
     try (match goal with H : negb (published ?s ?l) = true, H' : published ?s ?l = true |- _ => rewrite H' in H; discriminate end);
     try (destruct (creator_of _ _); try discriminate;
-         repeat match goal with H : (_ =? _) = true |- _ => apply Z.eqb_eq in H end; congruence).
+         repeat match goal with H : (_ =? _) = true |- _ => apply Z.eqb_eq in H end; congruence);
+    try congruence.
 Qed.
